@@ -21,7 +21,7 @@ import traceback
 
 HERE = os.path.dirname(os.path.abspath(__file__))
 VERIF = os.path.dirname(HERE)
-LEAN = os.path.join(VERIF, "lean")
+LEAN = os.environ.get("VERIF_LEAN_DIR") or os.path.join(VERIF, "lean")     # override: a private copy (parallel seeded runs)
 DRIVER = os.path.join(LEAN, ".lake", "build", "bin", "driver")
 sys.path.insert(0, HERE)
 
@@ -37,7 +37,7 @@ def log(*a):
 
 class Lock:
     def __enter__(self):
-        self.f = open(os.path.join(VERIF, ".lock"), "w")
+        self.f = open(os.path.join(LEAN, ".verif.lock") if os.environ.get("VERIF_LEAN_DIR") else os.path.join(VERIF, ".lock"), "w")
         fcntl.flock(self.f, fcntl.LOCK_EX)
 
     def __exit__(self, *a):
@@ -292,24 +292,27 @@ def load_known(pid):
     return [f for f in json.load(open(p))["findings"] if f["property"] == pid]
 
 
+OUT_DIR = os.environ.get("VERIF_OUT_DIR") or VERIF      # override (seeded runs): evidence/ and replays/ go elsewhere
+
+
 def write_evidence(pid, tier, seed, coverage, assumptions, wall, violations):
-    os.makedirs(os.path.join(VERIF, "evidence"), exist_ok=True)
+    os.makedirs(os.path.join(OUT_DIR, "evidence"), exist_ok=True)
     ev = {"property_id": pid, "tier": tier, "seed": seed, "level": "proof",
           "coverage": coverage, "assumptions": assumptions, "wall_s": round(wall, 2),
           "violations": violations}
-    tmp = os.path.join(VERIF, "evidence", ".%s.%d.tmp" % (pid, os.getpid()))
+    tmp = os.path.join(OUT_DIR, "evidence", ".%s.%d.tmp" % (pid, os.getpid()))
     with open(tmp, "w") as f:
         json.dump(ev, f, indent=1, sort_keys=True)
-    os.replace(tmp, os.path.join(VERIF, "evidence", pid + ".json"))
+    os.replace(tmp, os.path.join(OUT_DIR, "evidence", pid + ".json"))
 
 
 def write_replay(pid, seed, k, body):
-    d = os.path.join(VERIF, "replays")
+    d = os.path.join(OUT_DIR, "replays")
     os.makedirs(d, exist_ok=True)
     p = os.path.join(d, "%s-%s-%d.json" % (pid, seed, k))
     with open(p, "w") as f:
         json.dump(body, f, indent=1)
-    return os.path.relpath(p, VERIF)
+    return os.path.relpath(p, OUT_DIR)
 
 
 def main():
